@@ -56,7 +56,9 @@ theorem hStartStage_legal (c : Cfg) (s : State) (id i retry : Nat) :
     EffAll LegalEff s (hStartStage c s id i retry).flatten := by
   unfold hStartStage
   split
-  · trivial
+  · split
+    · exact effAll_quietB _ _ (by quiet_tac2)
+    · trivial
   unfold hStartStageCore
   simp only []
   split
